@@ -319,12 +319,20 @@ func sameFont(ft, want *font.Font, probes []rune) bool {
 	if ft.Upem() != want.Upem() {
 		return false
 	}
+	f1, f2 := font.NewFace(ft), font.NewFace(want)
 	for _, r := range probes {
 		g1, ok1 := ft.NominalGlyph(r)
 		g2, ok2 := want.NominalGlyph(r)
 		if g1 != g2 || ok1 != ok2 {
 			return false
 		}
+		if ok1 && (f1.HorizontalAdvance(g1) != f2.HorizontalAdvance(g2) || ft.GlyphName(g1) != want.GlyphName(g2)) {
+			return false
+		}
+	}
+	// members of a collection may share their character map: the names tell them apart
+	if d1, d2 := ft.Describe(), want.Describe(); d1 != d2 {
+		return false
 	}
 	return true
 }
